@@ -83,8 +83,7 @@ fn hcase(run: &Run, p: &HPoint) -> Value {
 }
 
 fn reset_dir(dir: &Path, img: &DirImage) {
-    let _ = std::fs::remove_dir_all(dir);
-    img.materialise(dir);
+    img.materialise_over(dir);
 }
 
 fn commit_digests(dir: &Path) -> Result<Vec<Hash>, String> {
@@ -302,6 +301,13 @@ pub fn run(r: &Report) -> Option<HostData> {
     let words = valid_words(depth);
     let runs: Vec<Run> = match words.par_iter().map(|w| run_uninterrupted(&scratch, w, &ids)).collect::<Result<Vec<_>, _>>() {
         Ok(r) => r,
+        Err(e) if e.contains("ACK-VIOLATION") => {
+            r.violation(
+                "host:ack-not-durable:acknowledged-op-has-no-commit-marker-on-disk",
+                json!({"case": {"layer": "host-ack"}, "observed": e}),
+            );
+            return None;
+        }
         Err(e) => {
             r.machinery_error(&format!("host workload failed on the unchanged path: {e}"));
             return None;
